@@ -27,9 +27,9 @@ RULE = ("seeded random models (grammar of C01: nesting, inheritance, ItemSpaces,
         "a query whose evaluation passes through a varied cells; distinct = distinct (model seed, k, edit kinds)")
 ASSUMPTIONS = ["baseline is the all-cached assignment (tied to the reference evaluator by C01/C02)",
                "value edits (assign/clear) are only applied to cells that are cached under every assignment"]
-MIN_COUNTERS = {"quick": {"assignments_run": 800, "values_compared": 90000, "uncached_len_checks": 3000,
+MIN_COUNTERS = {"quick": {"assignments_run": 500, "values_compared": 60000, "uncached_len_checks": 3000,
                           "uncached_reexec_checks": 1000, "unhashable_checks": 300},
-                "thorough": {"assignments_run": 60000, "values_compared": 6000000, "uncached_len_checks": 100000,
+                "thorough": {"assignments_run": 30000, "values_compared": 5000000, "uncached_len_checks": 100000,
                              "uncached_reexec_checks": 30000, "unhashable_checks": 10000}}
 SHARD_TIMEOUT = {"quick": 900, "thorough": 5400}
 CHUNK = {"quick": 4, "thorough": 8}
